@@ -95,6 +95,7 @@ func shrinkProfile() Profile {
 	p.FaultRate = 0.1
 	p.RemoveBias = 0.6
 	p.MaxConfChanges = 4
+	p.HoldConfApply = 0.5
 	return p
 }
 
@@ -165,6 +166,7 @@ func confProfile() Profile {
 	p.MinVoters = 2
 	p.WCompact = 3
 	p.WTransfer = 1
+	p.HoldConfApply = 0.25
 	return p
 }
 
@@ -304,7 +306,10 @@ func specFor(id string) PropSpec {
 		p := snapshotProfile()
 		p.PZeroMsgSize = 0.03
 		p.WConf = 3
-		return one(p, "C14-mix")
+		p.HoldConfApply = 0.3
+		s.Profiles = []Profile{withName(p, "C14-mix"), withName(shrinkProfile(), "C14-shrink"), withName(d, "C14-default")}
+		s.Shares = []float64{0.55, 0.2, 0.25}
+		return s
 	case "C15":
 		p := DefaultProfile()
 		p.PUniform = 1
